@@ -10,7 +10,7 @@ From ClemensGen Require Import GoConsts.
 From Clemens.C03Text Require Import SquareText MoveText GameReplay TextExamples.
 From Clemens.C01Att Require Import FideFacts.
 From Clemens Require Import Rules.Abs Rules.Fide.
-From WipRecon Require Import FideText MoveSound Recon.
+From Clemens.C03Recon Require Import FideText MoveSound Recon.
 Import ListNotations.
 Open Scope N_scope.
 
